@@ -1,6 +1,7 @@
 package c01
 
 import (
+	"image/color"
 	"math"
 
 	"github.com/reactivego/ivg"
@@ -17,6 +18,7 @@ var _ = vp.Reg("Runs", H_Runs)
 var _ = vp.Reg("Mixed", H_Mixed)
 var _ = vp.Reg("Transcode", H_Transcode)
 var _ = vp.Reg("MidPath", H_MidPath)
+var _ = vp.Reg("CustomMetadata", H_CustomMetadata)
 
 func absDiff(a, b uint32) uint32 { return vp.IteU32(a > b, a-b, b-a) }
 
@@ -252,4 +254,30 @@ func H_MidPath() {
 	vp.Reach("transcoded")
 	vp.Assert(vp.And(err == nil, err2 == nil), "transcoding an accepted stream succeeds")
 	vp.Assert(rec.SameLog(d1.Log, d2.Log), "the re-encoded stream decodes to the same operations (the pending run is not lost)")
+}
+
+// H_CustomMetadata: a custom viewBox (arbitrary short-form coordinates, valid)
+// and a suggested palette with two arbitrary premultiplied entries survive
+// encode -> decode exactly, together with a following instruction.
+func H_CustomMetadata() {
+	vb := ivg.ViewBox{MinX: drive.SmallCoord("minx"), MinY: drive.SmallCoord("miny"), MaxX: drive.SmallCoord("maxx"), MaxY: drive.SmallCoord("maxy")}
+	vp.Assume(vp.And(vb.MinX <= vb.MaxX, vb.MinY <= vb.MaxY))
+	pal := ivg.DefaultPalette
+	for i := 0; i < 2; i++ {
+		c := color.RGBA{vp.U8("r"), vp.U8("g"), vp.U8("b"), vp.U8("a")}
+		vp.Assume(vp.All(c.R <= c.A, c.G <= c.A, c.B <= c.A))
+		pal[i] = c
+	}
+	var e encode.Encoder
+	e.Reset(vb, pal)
+	e.SetCSel(7)
+	out, err := e.Bytes()
+	var d rec.Dest
+	err2 := decode.Decode(&d, out)
+	vp.Reach("decoded")
+	vp.Assert(vp.And(err == nil, err2 == nil), "accepted and decodes")
+	vp.Assert(vp.All(vp.SameF32(d.ViewBox.MinX, vb.MinX), vp.SameF32(d.ViewBox.MinY, vb.MinY), vp.SameF32(d.ViewBox.MaxX, vb.MaxX), vp.SameF32(d.ViewBox.MaxY, vb.MaxY)),
+		"custom viewBox survives")
+	vp.Assert(d.Palette == pal, "premultiplied suggested palette survives exactly")
+	vp.Assert(len(d.Log) == 2 && d.Log[1].Op == rec.OpSetCSel, "the instruction after the metadata is delivered")
 }
